@@ -37,6 +37,7 @@ func exec(c vh.ShimCase) (vh.Outcome, error) {
 // genWithRefusals adds fault plans that make the underlying agent refuse the lock or unlock request.
 func genWithRefusals(t *rapid.T) vh.ShimCase {
 	c := vh.GenShimCase(t, profile)
+	c.ListsWhileLocked = rapid.IntRange(0, 3).Draw(t, "listsWhileLocked") == 0
 	// most histories should contain a complete episode: lock, operations attempted while locked,
 	// the right passphrase, and a look at the result
 	if rapid.IntRange(0, 4).Draw(t, "episode") > 0 {
@@ -70,6 +71,10 @@ func genWithRefusals(t *rapid.T) vh.ShimCase {
 		if rapid.Bool().Draw(t, "episodeWrong") {
 			ep = append(ep, vh.Op{Kind: "unlock", Cert: -1, Pass: "episodE"})
 		}
+		if rapid.IntRange(0, 5).Draw(t, "episodeLostLock") == 0 {
+			// the underlying agent loses its lock behind the shim's back; a wrong passphrase follows
+			ep = append(ep, vh.Op{Kind: "oobunlock", Cert: -1}, vh.Op{Kind: "unlock", Cert: -1, Pass: "not the passphrase"}, vh.Op{Kind: "list", Cert: -1})
+		}
 		ep = append(ep, vh.Op{Kind: "unlock", Cert: -1, Pass: "episode"}, vh.Op{Kind: "list", Cert: -1}, vh.Op{Kind: "sign", Cert: 0})
 		at := rapid.IntRange(0, len(c.Ops)).Draw(t, "episodeAt")
 		ops := append([]vh.Op{}, c.Ops[:at]...)
@@ -96,7 +101,7 @@ func genWithRefusals(t *rapid.T) vh.ShimCase {
 	return c
 }
 
-const rule = "histories of 1..30 operations interleaving lock / unlock (right, wrong, empty, 300-byte and near-miss passphrases) / close with add, add-hardware-certificate, remove, remove-all, list, signers, sign and out-of-band keyring edits, starting from 0..6 underlying identities and hardware certificates; in a third of the histories the underlying agent refuses individual lock / unlock requests (fault plan on that request kind). Certificates are current or forever so time cannot interfere. Oracle: model with a locked flag: while locked, list = empty without error, every other listed operation errs, the keyring is unchanged (observed directly) and after the right passphrase the view equals the model's pre-lock view; wrong passphrase => error and still locked; unlock when unlocked => error; a refused lock / unlock leaves the behaviour unchanged (probed by the following operations). Non-trivial: at least one mutating operation attempted while locked and a later successful unlock."
+const rule = "histories of 1..30 operations interleaving lock / unlock (right, wrong, empty, 300-byte and near-miss passphrases) / close with add, add-hardware-certificate, remove, remove-all, list, signers, sign and out-of-band keyring edits, starting from 0..6 underlying identities and hardware certificates; in a third of the histories the underlying agent refuses individual lock / unlock requests (fault plan on that request kind); in a quarter the underlying agent keeps listing its identities while locked; sometimes it loses its lock behind the shim's back and then refuses every unlock. Certificates are current or forever so time cannot interfere. Oracle: model with a locked flag: while locked, list = empty without error, every other listed operation errs, the keyring is unchanged (observed directly) and after the right passphrase the view equals the model's pre-lock view; wrong passphrase => error and still locked; unlock when unlocked => error; a refused lock / unlock leaves the behaviour unchanged (probed by the following operations). Non-trivial: at least one mutating operation attempted while locked and a later successful unlock."
 
 func TestC08Lock(t *testing.T) {
 	vh.Run(t, vh.Spec[vh.ShimCase]{Property: "C08", Name: "TestC08Lock", Rule: rule, Gen: genWithRefusals, Exec: exec})
